@@ -17,6 +17,41 @@ CHECKS = {
             'Trusts vf/refmodel.py (60 lines, written from the layout comment). Above the exhaustive bound only S values with the '
             'G1 digit patterns are visited.',
             'DESIGN.md 3/C05'),
+    'C06': ('model_checking',
+            'explicit-state BFS of the cell tree with the real cell_to_children/cell_to_parent as transition functions, reference tuple-path tree as oracle',
+            'Every cell of resolutions -1..5 (quick) / -1..6 (thorough) and digit-pattern seeds at every deeper resolution: all parent levels, all child levels up to +3, '
+            'defaults, composition, contiguity and the error cases are evaluated in every state and compared with the reference tree on every edge.',
+            'Trusts vf/refmodel.py; child fan-outs deeper than +3 levels are covered by composition only; above the exhaustive bound only G1 digit patterns.',
+            'DESIGN.md 3/C06'),
+    'C08': ('model_checking',
+            'explicit-state BFS over the antichain lattice (remove/split edits) plus overlap edits, real compact run on every state, canonical-form coverage oracle',
+            'All antichains within edit distance 5 (quick) / 6 (thorough) of the world cell (splits down to resolution 3), plus mixed-face and deep (res 0..28) bases, each also with '
+            'overlapping ancestors/descendants added, are compacted by the real code in several orders; the covered region must equal the input region.',
+            'Region equality is decided through the unique canonical antichain (reference compaction) and literally through uncompact for small cases. Inputs outside the explored lattice are not covered.',
+            'DESIGN.md 3/C08'),
+    'C09': ('model_checking',
+            'explicit-state BFS over the antichain lattice (remove/split edits), real compact run on every state in many input orders, set-based reference compaction as oracle',
+            'All antichains within edit distance 5 (quick) / 6 (thorough) of the world cell plus mixed-face and deep bases: output must be duplicate-free, equal to the canonical set, '
+            'independent of order/duplication (all permutations for <= 4/5 cells) and idempotent.',
+            'Trusts the reference compaction (20 lines). Antichains outside the explored lattice are not covered.',
+            'DESIGN.md 3/C09'),
+    'C10': ('model_checking',
+            'exhaustive enumeration of all short cell lists over a menu x all targets, plus antichain-lattice states, against reference descendants',
+            'All lists of length 0..3 over a 16-cell menu spanning every aperture and the deepest levels x every target 0..29 (expansions <= 4^6, or must-raise cases), and every '
+            'lattice state as a list: blocks, order, multiplicity, resolution, parent mapping, error behaviour and argument immutability.',
+            'Within a block only set equality is required. Larger expansions are skipped (counted).',
+            'DESIGN.md 3/C10'),
+    'C19': ('exploration',
+            'lane-exhaustive enumeration of 64-bit values through the real hex conversion',
+            'All 65536 values of each 16-bit lane over four backgrounds, all single-bit/nibble perturbations and boundary values, and every valid id of resolutions <= 6/8 round-trip, '
+            'format, injectivity and tolerant parsing.',
+            'The full 2^64 domain is not enumerable; relies on the digit-wise structure of the conversion.',
+            'DESIGN.md 3/C19'),
+    'C20': ('model_checking',
+            'exhaustive enumeration of all resolution pairs and of the hierarchy to resolution 7/8 against the real counting functions',
+            'All 32x32 resolution pairs, every cell of resolutions -1..3 with all enumerable child levels, seeds at every level to 29, whole levels expanded from the world and re-summed over coarser levels, areas 0..30.',
+            'Sphere area constant taken from the package documentation (authalic radius 6371007.2 m).',
+            'DESIGN.md 3/C20'),
 }
 
 PENDING_REASON = 'check not built yet in this session (planned in DESIGN.md section 3; claimed as soon as its check is committed)'
